@@ -1,6 +1,9 @@
 package main
 
-import "fmt"
+import (
+	"fmt"
+	"os"
+)
 
 func init() {
 	opExec["rawget"] = func(a []string) string {
@@ -23,5 +26,34 @@ func init() {
 			b = b[:400]
 		}
 		return fmt.Sprintf("%d %q", rec.Code, b)
+	}
+}
+
+func init() {
+	opExec["periods"] = func(a []string) string {
+		res := doLive("GET", a[0])
+		m, err := parseMPD(res.body)
+		if err != nil {
+			return fmt.Sprintf("%d unparsable", res.code)
+		}
+		out := fmt.Sprintf("%d pt=%s", res.code, m.PublishTime)
+		for _, p := range m.Periods {
+			out += fmt.Sprintf(" [%s start=%s", p.ID, p.Start)
+			for i := range p.Sets {
+				out += fmt.Sprintf(" %s:%v", asContentType(&p.Sets[i]), expandTL(p.Sets[i].SegmentTemplate))
+			}
+			out += "]"
+		}
+		return out
+	}
+}
+
+func init() {
+	opExec["savebody"] = func(a []string) string {
+		res := doLive("GET", a[0])
+		if err := os.WriteFile(a[1], res.body, 0o644); err != nil {
+			return err.Error()
+		}
+		return fmt.Sprintf("%d %d bytes", res.code, len(res.body))
 	}
 }
